@@ -133,6 +133,7 @@ impl<'a> Minimiser<'a> {
         while cur.puts.len() > 1 {
             let last = cur.puts.len() - 1;
             let referenced = cur.script.iter().any(|e| matches!(e, Entry::User { put, .. } if *put == last));
+            // (indices >= RAW_TXN address scripted transactions and are never shifted)
             if referenced {
                 break;
             }
